@@ -136,7 +136,8 @@ class StepBudget:
             self.mon.register_callback(self.TOOL, self.mon.events.JUMP,
                                        self._jump)
             self.active = True
-        self.mon.restart_events()
+        # no restart_events(): DISABLE is only ever returned for code outside
+        # the library, which never needs to be re-enabled
         self.count = 0
         self.limit = limit
         self.mon.set_events(self.TOOL, self.mon.events.JUMP)
